@@ -222,6 +222,18 @@ static void scn_after_main(struct loopthr *lt)
 
 static int scn_next_phase(void) { return 0; }
 
+void hk_idle(void)
+{
+	int i;
+	if (atomic_load(&mt_phase))
+		return;
+	for (i = 0; i < MAXRAW; i++)
+		if (atomic_load(&rw[i].state) == 1 && rw[i].last_post_seq > rw[i].last_entry_seq)
+			mon_viol("C09", "blocked-with-undelivered-post", g_method,
+				 "every thread is blocked (only an unrelated deadline could wake the owner) and raw event %d of loop %d has a post without a later handler run (posts %ld, runs %ld)",
+				 i, rw[i].owner, (long)rw[i].posts, (long)rw[i].entries);
+}
+
 static void scn_quiescent_check(void)
 {
 	int i;
